@@ -188,10 +188,7 @@ class SInt:
     def __rpow__(self, base):
         if not _is_pyint(base):
             return NotImplemented
-        v = cur().concretize(self.e)
-        if self.kind == "bv" and v >= 1 << (W - 1):
-            v -= 1 << W
-        return builtins.int(base) ** v
+        return builtins.int(base) ** self.__index__()
 
     # -- bit operations (python int semantics)
     def __lshift__(self, k):
@@ -265,6 +262,10 @@ class SInt:
         v = cur().concretize(self.e)
         if self.kind == "bv" and v >= 1 << (W - 1):
             v -= 1 << W
+        # the path condition now pins the value: keep the constant (sound on this path)
+        self.e = z3.BitVecVal(v, W) if self.kind == "bv" else z3.IntVal(v)
+        if self.kind == "bv":
+            self.nb = max(abs(v).bit_length(), 1)
         return v
 
     __int__ = __index__
@@ -434,7 +435,8 @@ class SBV:
             dt = self.dtype
             o = SBV.const(o, dt)
         elif isinstance(o, SInt):
-            # a python-int-like symbolic value: weak, must fit the dtype
+            return self._pair(o.__index__())
+        elif False:
             info = real_np.iinfo(self.dtype)
             fits = z3.And(o.e >= info.min, o.e <= info.max) if o.kind == "int" else \
                 z3.And(o.e >= z3.BitVecVal(info.min, W), o.e <= z3.BitVecVal(info.max, W))
